@@ -25,6 +25,11 @@
 //                                             the two keys, so that the check can verify each request under
 //                                             the key NAMED in its authorization header
 //
+//   L <calls>                                 load: <calls> CONCURRENT own calls (get_goalstate /
+//                                             get_imds_instance_info alternately, one task each, all
+//                                             started before any is polled) with one key latched and no
+//                                             rotation; prints what the mock host received
+//
 // Every library rejection is reported distinctly ({"reject": "..."}) so that the model is never
 // asked about an input the code does not see; a panic inside the code under test is caught and
 // reported as {"panic": true} (header values with a byte >= 0x80: C13's subject, F7).
@@ -387,6 +392,52 @@ fn op_r<'a>(it: &mut impl Iterator<Item = &'a str>, rt: &tokio::runtime::Runtime
     })
 }
 
+fn op_l<'a>(it: &mut impl Iterator<Item = &'a str>, rt: &tokio::runtime::Runtime) -> Value {
+    use gpa::host_clients::imds_client::ImdsClient;
+    use gpa::host_clients::wire_server_client::WireServerClient;
+    use gpa::key_keeper::key::Key;
+    use gpa::shared_state::key_keeper_wrapper::KeyKeeperSharedState;
+    let calls: usize = it.next().unwrap().parse().unwrap();
+    let (port, received) = start_mock_host();
+    let r = catch_unwind(AssertUnwindSafe(|| {
+        rt.block_on(async {
+            let state = KeyKeeperSharedState::start_new();
+            let mut k = Key::empty();
+            k.guid = ROT_KEYS[0].0.to_string();
+            k.key = ROT_KEYS[0].1.to_string();
+            k.incarnationId = Some(1);
+            state.update_key(k).await.unwrap();
+            let mut handles = Vec::new();
+            for i in 0..calls {
+                let state = state.clone();
+                handles.push(tokio::spawn(async move {
+                    if i % 2 == 0 {
+                        let _ = WireServerClient::new("127.0.0.1", port, state).get_goalstate().await;
+                    } else {
+                        let _ = ImdsClient::new("127.0.0.1", port, state).get_imds_instance_info().await;
+                    }
+                }));
+            }
+            for h in handles {
+                let _ = h.await;
+            }
+        })
+    }));
+    if r.is_err() {
+        return json!({"panic": true});
+    }
+    std::thread::sleep(std::time::Duration::from_millis(100));
+    let mut reqs = Vec::new();
+    while let Ok((head, body)) = received.try_recv() {
+        reqs.push(json!({"head": hx(&head), "body": hx(&body)}));
+    }
+    json!({
+        "requests": reqs,
+        "calls": calls,
+        "keys": ROT_KEYS.iter().map(|(g, k)| json!([g, k])).collect::<Vec<_>>(),
+    })
+}
+
 pub fn main() {
     std::panic::set_hook(Box::new(|_| {}));
     let rt = tokio::runtime::Builder::new_current_thread().enable_all().build().unwrap();
@@ -402,6 +453,7 @@ pub fn main() {
             Some("S") => op_s(&mut it),
             Some("B") => op_b(&mut it, &rt),
             Some("R") => op_r(&mut it, &rt),
+            Some("L") => op_l(&mut it, &rt),
             _ => json!({"bad_line": true}),
         };
         writeln!(out, "{}", v).unwrap();
